@@ -2,6 +2,7 @@
 """Run /repo's pinned suite with the guard OFF and compare with /root/.vp/BASELINE.json:
 every test of `stable_pass` must still pass.  Usage: tools/baseline.py [repo]"""
 import json, os, subprocess, sys, tempfile, xml.etree.ElementTree as ET
+HERE = os.path.dirname(os.path.abspath(__file__))
 """Optional: tools/baseline.py /repo tests/test_frame.py tests/test_io.py  -> only these files, compared with
 the stable_pass entries of those files."""
 repo = sys.argv[1] if len(sys.argv) > 1 else '/repo'
@@ -12,12 +13,16 @@ if files:
     mods = {f.replace('/', '.').removesuffix('.py') for f in files}
     want = {w for w in want if w.split('::')[0].rsplit('.', 1)[0] in mods}
 env = {k: v for k, v in os.environ.items() if k != 'HIGHDICOM_VERIF'}
+fast = []
+if not os.environ.get('FULL'):
+    env['PYTHONPATH'] = HERE + os.pathsep + env.get('PYTHONPATH', '')
+    fast = ['-p', 'nosleep_plugin']
 with tempfile.TemporaryDirectory() as td:
     xml = os.path.join(td, 'j.xml')
     subprocess.run(['/venv/bin/python', '-m', 'pytest', '-q', '-p', 'no:cacheprovider', '--timeout=900',
-                    '--continue-on-collection-errors', f'--junitxml={xml}', '-n', '8', *files] if os.environ.get('XDIST') else
+                    '--continue-on-collection-errors', f'--junitxml={xml}', '-n', '8', *fast, *files] if os.environ.get('XDIST') else
                    ['/venv/bin/python', '-m', 'pytest', '-q', '-p', 'no:cacheprovider', '--timeout=900',
-                    '--continue-on-collection-errors', f'--junitxml={xml}', *files], cwd=repo, env=env,
+                    '--continue-on-collection-errors', f'--junitxml={xml}', *fast, *files], cwd=repo, env=env,
                    stdout=subprocess.DEVNULL, stderr=subprocess.DEVNULL)
     passed = set()
     for tc in ET.parse(xml).getroot().iter('testcase'):
